@@ -898,7 +898,17 @@ struct elements_range_t {
 	template<class OtherRange, decltype(multi::detail::explicit_cast<pointer>(std::declval<OtherRange>().base_))* = nullptr>
 	constexpr explicit elements_range_t(OtherRange const& other) : elements_range_t{other} {}
 
-	constexpr elements_range_t(pointer base, layout_type const& lyt) : base_{base}, l_{lyt} {}
+	constexpr elements_range_t(pointer base, layout_type const& lyt) : base_{base}, l_{zero_based_(lyt, std::make_index_sequence<static_cast<std::size_t>(layout_type::rank_v)>{})} {}
+
+ private:
+	// the flat range enumerates positions, not indices: index bases are dropped so that from_linear/to_linear (zero-based) agree with the layout
+	template<std::size_t... I>
+	static constexpr auto zero_based_(layout_type lyt, std::index_sequence<I...> /*unused*/) -> layout_type {
+		if constexpr(sizeof...(I) != 0) { lyt.reindex((static_cast<void>(I), index{0})...); }
+		return lyt;
+	}
+
+ public:
 
 	constexpr auto base()       ->       pointer {return base_;}
 	constexpr auto base() const -> const_pointer {return base_;}
